@@ -612,8 +612,10 @@ func c02Scenarios(ctx *vr.Ctx) []*c02Scn {
 			Producers: [][]c02Offer{{one(1), one(2)}, {one(3)}}, Shutdown: "concurrent"})
 	}
 	// D3 wait-for-result (memory only)
-	l = append(l, &c02Scn{Name: "D3-mem", Kind: "mem", Cap: 2, Block: true, WFR: true, Consumers: 1, ConsumerPoint: true,
-		Producers: [][]c02Offer{{{ID: 1, Size: 1, Ctx: 1}}, {one(2), one(3)}}, Cancel: []int{1}, Shutdown: "end"})
+	// (the cancellable request has a size of its own: whatever per-request bookkeeping is recycled when its producer gives up
+	// must not be the one a later, differently sized request then uses)
+	l = append(l, &c02Scn{Name: "D3-mem", Kind: "mem", Cap: 3, Block: true, WFR: true, Consumers: 1, ConsumerPoint: true,
+		Producers: [][]c02Offer{{{ID: 1, Size: 2, Ctx: 1}}, {one(2), one(3)}}, Cancel: []int{1}, Shutdown: "end"})
 	l = append(l, &c02Scn{Name: "D3b-mem", Kind: "mem", Cap: 1, WFR: true, Consumers: 2, ConsumerPoint: false, Big: true,
 		Producers: [][]c02Offer{{one(1)}, {one(2)}, {one(3)}}, Shutdown: "end"})
 	// D3c: wait-for-result AND block-on-overflow with real overflow: the second producer waits for space that only the
